@@ -19,10 +19,13 @@ STRATA = [
     ("budget", 60, 1000),
     ("unsat-constructed", 150, 2500),
     ("planted", 40, 600),
+    ("mid", 400, 6000),
     ("default-mode", 12, 120),
     ("reduce", 0, 3),
+    ("suite", 0, 1),
 ]
-REQUIRED_EVENTS = {"any": ["c02.verdict-checked", "c02.budget-counters-read", "l2.analyze", "sat.restarts"]}
+REQUIRED_EVENTS = {"any": ["c02.verdict-checked", "c02.budget-counters-read", "l2.analyze", "sat.restarts",
+                           "sat.default-config-run-with-restart"]}
 BATCH = {"reduce": 1, "default-mode": 1, "planted": 5, "budget": 5}
 
 setup = sc.setup
